@@ -546,6 +546,10 @@ impl<'a> EvalState<'a> {
                 Ok(ExprValue::List(Vec::new()))
             } else {
                 let mut es = EvalState::new(tokens, self.context, &self.checked_vars);
+                // the value of a variable is evaluated at the nesting depth of its use: a long
+                // chain of variables is bounded like any other nesting (an error, not a stack
+                // overflow)
+                es.depth = self.depth;
                 let e = expr_list(&mut es)?;
                 if es.peek().is_none() {
                     Ok(e)
